@@ -96,7 +96,9 @@ def direct_case(ctx, site, start: datetime, elapsed_list):
         prev = el
 
 
-def scenario_case(ctx, sites, start: datetime, step: int, nsteps: int):
+def scenario_case(ctx, sites, start: datetime, step: int, nsteps: int, late=None):
+    """``late`` = (step index after which it is added, site): a ground facility added to the running scenario through the
+    public ``Scenario.addSensor`` API."""
     from .. import scenario_kit as sk
 
     sk.init()
@@ -104,7 +106,9 @@ def scenario_case(ctx, sites, start: datetime, step: int, nsteps: int):
     tg = [sk.target_cfg(10001, r, v)]
     sn = [sk.ground_sensor_cfg(20001 + i, s[0], s[1], s[2], kind=["adv_radar", "optical", "radar"][i % 3]) for i, s in enumerate(sites)]
     cfg = sk.scenario_cfg(start, start + timedelta(seconds=(nsteps + 1) * step), step, [sk.engine_cfg(1, tg, sn)], truth_only=True)
-    wit = {"kind": "scenario", "sites": [list(s) for s in sites], "start": start.isoformat(), "step": step, "nsteps": nsteps, "start_second": start.second}
+    wit = {"kind": "scenario", "sites": [list(s) for s in sites], "start": start.isoformat(), "step": step, "nsteps": nsteps, "start_second": start.second,
+           "late": [late[0], list(late[1])] if late else None}
+    sites = list(sites)
     b = sk.build(cfg)
     try:
         app = b.app
@@ -112,6 +116,14 @@ def scenario_case(ctx, sites, start: datetime, step: int, nsteps: int):
             if k:
                 app.stepForward()
                 app.saveDatabaseOutput()
+            if late and k == late[0]:
+                sid = 20001 + len(sites)
+                sites.append(tuple(late[1]))
+                from resonaate.data.agent import AgentModel
+
+                app.database.insertData(AgentModel(unique_id=sid, name=f"S{sid}"))
+                app.addSensor(sk.ground_sensor_cfg(sid, late[1][0], late[1][1], late[1][2], kind="adv_radar"), 1)
+                ctx.count("late_sites_added")
             when = start + timedelta(seconds=k * step)
             for i, s in enumerate(sites):
                 ag = app.sensor_agents[20001 + i]
@@ -150,7 +162,8 @@ def run(ctx):
         start = _start(rng)
         step = rng.choice([2, 10, 60, 100, 300, 600, 3600])
         nsteps = rng.randrange(2, 9)
-        scenario_case(ctx, sites, start, step, nsteps)
+        late = (rng.randrange(0, nsteps), _site(rng)) if rng.random() < 0.5 else None
+        scenario_case(ctx, sites, start, step, nsteps, late)
         ctx.count("scenario_runs")
         ctx.case(("s", tuple(sites), start.isoformat(), step, nsteps), nontrivial=start.second != 0, sample={"sites": sites, "start": start.isoformat(), "step": step, "steps": nsteps} if i % 10 == 0 else None)
 
@@ -162,4 +175,5 @@ def replay(ctx, w):
     if w["kind"] == "direct":
         direct_case(ctx, tuple(w["site"]), datetime.fromisoformat(w["start"]), w["elapsed"])
     else:
-        scenario_case(ctx, [tuple(s) for s in w["sites"]], datetime.fromisoformat(w["start"]), w["step"], w["nsteps"])
+        scenario_case(ctx, [tuple(s) for s in w["sites"]], datetime.fromisoformat(w["start"]), w["step"], w["nsteps"],
+                      (w["late"][0], tuple(w["late"][1])) if w.get("late") else None)
